@@ -58,7 +58,8 @@ IdsBS == {Id(<<BS, 97>>), Id(<<BS, BS, 97>>), Id(<<120, BS, BS, 121>>), Id(<<BS,
 QuoteSeqsBS == {<<a>> : a \in IdsBS} \cup {<<a, Ch(44), b>> : a \in IdsBS, b \in {Id(<<110>>), Lit(<<DQ>>), Lit(<<BS>>), Id(<<BS, BS, 97>>)}}
 \* bracket structures (balanced or not) around a few literals / identifiers for the array option
 \* (the last identifier ends in a backslash: inside back quotes a backslash is a character like any other)
-BrTok == {LB, RB, Ch(49), Lit(<<91>>), Lit(<<93, SQ>>), Lit(<<BS>>), Id(<<91, 97>>), Id(<<BT, 93>>), Id(<<97, BS>>)}
+\* (Lit(<<233>>), Id(<<233, 91>>): a two-byte rune in front of brackets - positions are byte positions)
+BrTok == {LB, RB, Ch(49), Lit(<<91>>), Lit(<<93, SQ>>), Lit(<<BS>>), Id(<<91, 97>>), Id(<<BT, 93>>), Id(<<97, BS>>), Lit(<<233>>), Id(<<233, 91>>)}
 BrSeqs == UNION {[1..n -> BrTok] : n \in 1..MaxBrTokens}
 \* many brackets in one statement: an array of k one-element arrays, k-deep nesting, k flat arrays followed by a nested one,
 \* and the unbalanced variants that lose their last closing bracket
